@@ -1019,9 +1019,7 @@ class Note(StructFormatter):
         if order:
             for f in self.fields:
                 f.order = order
-        if x64:
-            for f in self.fields:
-                f.typename = "Q"
+        # note: Elf64_Nhdr uses the same three 4-byte words as Elf32_Nhdr
         self.name_formatter("n_type")
         if data:
             self.unpack(data, offset)
